@@ -90,7 +90,7 @@ class _Ctx:
             return r.choice([2**32 - 1, 2**32 - 2, 2**32 - 3]) if width > 1 else 2**32 + r.randint(0, 3)
         if k < 0.90:  # negative
             return -r.randint(1, 9)
-        return 2**32 + r.choice([0, 4, DATA_MIN, DATA_MIN + 4 * r.randint(0, 8)]) + r.choice([0, 0, 1, 3])
+        return r.choice([1, 1, 2, 3, -1, -2]) * 2**32 + r.choice([0, 4, DATA_MIN, DATA_MIN + 4 * r.randint(0, 8)]) + r.choice([0, 0, 1, 3])
 
 
 def _rw(ctx, p_write=0.5, p_fault=0.1, p_uncounted=0.15):
@@ -257,6 +257,9 @@ def gen_flat_trace(seed, faults):
             a = -r.randint(1, 9)
         else:
             a = (2**32 + lo + r.randrange(0, 8)) if not toy else hi + 5
+        if not toy and r.random() < 0.06:
+            # the same cell through an alias several periods of 2^32 away (addresses are taken modulo 2^32)
+            a = (a % 2**32) + r.choice([-3, -2, -1, 1, 2, 3, 5, 1 << 8]) * 2**32
         if r.random() < 0.5:
             ops.append(["W", w, a, value(w)])
         else:
